@@ -87,8 +87,7 @@ def main(pid, argv):
                     ck.distinct.add(line)
         if bad:
             nf += 1
-            if nf <= 3:
-                ck.fail("svc-routing", line, bad, impl=il[:1500], model=ml[:1500])
+            ck.fail("svc-routing", line, bad, impl=il[:1500], model=ml[:1500])
             continue
         if iconns != mconns:
             ck.tie_broken("per-connection bytes / dispatch log differ", line[:1500], il[:600], ml[:600])
